@@ -24,7 +24,7 @@ CLAIMED = {
     ref='DESIGN.md §7 C03'),
  'C04': dict(level='other', engine='absint',
     technique='decision-list extraction from branch facts (path enumeration of a comparison-only function) compared with the NL formula; parity facts and float intervals at the result construction sites',
-    text='Decides: nl() is, for every latitude (both signs, NaN), the 59-band NL table whose breakpoints equal the formula to the table\'s 8 decimals; airborne_position builds a position only in states where the two reports have opposite parity (both orders), only on paths that passed the guard NL(returned latitude) = NL(other latitude), the returned latitude interval is within [-90, 90], neither coordinate can be NaN, and its integer arithmetic cannot panic. Does NOT decide the 10 m accuracy, longitude in [-180, 180), nor the converse "None only when the NL bands differ".',
+    text='Decides: nl() is, for every latitude (both signs, NaN), the 59-band NL table whose breakpoints equal the formula to the table\'s 8 decimals; airborne_position builds a position only in states where the two reports have opposite parity (both orders), only on paths that passed the guard NL(returned latitude) = NL(other latitude), the returned latitude interval is within [-90, 90], the returned longitude within [-180, 180) (modulo() has the normal form a - b*floor(a/b), so on integer-valued arguments it yields an integer of [0, b-1]; one abstract pass per NL value 1..59 bounds (360/ni)*(m mod ni + cpr) below 360 before the wrap), neither coordinate can be NaN, and its integer arithmetic cannot panic. Does NOT decide the 10 m accuracy nor the converse "None only when the NL bands differ".',
     note='Static rule check, clause-limited as stated. CPR fields are taken as 17-bit values (what the deku readers produce). Trusted: MIR, float interval arithmetic with outward rounding, libm::floor model.',
     ref='DESIGN.md §7 C04'),
  'C05': dict(level='other', engine='absint+terms',
